@@ -2732,6 +2732,12 @@ func (c *pipelineConnClient) DoDeadline(req *Request, resp *Response, deadline t
 	// Make a copy of the request in order to avoid data races on timeouts
 	req.copyToSkipBody(&w.reqCopy)
 	swapRequestBody(req, &w.reqCopy)
+	if rs, ok := w.reqCopy.bodyStream.(*requestStream); ok && !rs.fullyRead() {
+		// req was read from a server connection and the rest of its body,
+		// which is still there, now belongs to the pipeline's goroutines:
+		// the server cannot look for the next request behind it.
+		req.bodyStreamUnread = true
+	}
 
 	// Put the request to outgoing queue
 	select {
